@@ -30,8 +30,26 @@ def specBinInt (op : BinOp) (a b : Int) : Option String :=
   | .pus => some (specIRes (.val (Spec.shr a b)))
   | _ => none
 
+def parseTyStr (s : String) : Option Ty :=
+  match pTy s.toList with
+  | some ((t, _), []) => some t
+  | _ => none
+
 def handle (words : List String) : String :=
   match words with
+  | ["op", name, v1, v2, st1, st2] =>
+    -- static operand types given explicitly (they differ from the value types for declared function results)
+    match binOpOfName name, parseVal v1, parseVal v2, parseTyStr st1, parseTyStr st2 with
+    | some op, some a, some b, some t1, some t2 =>
+      if !acceptBin op t1 t2 then "model=perr " ++ toString Gen.EXC_PARSE_TYPE_MISMATCH_S
+      else "model=" ++ resStr (evalBin op a b)
+    | _, _, _, _, _ => "bad-op"
+  | ["un", name, v1, st1] =>
+    match unOpOfName name, parseVal v1, parseTyStr st1 with
+    | some op, some a, some t1 =>
+      if !acceptUn op t1 then "model=perr " ++ toString Gen.EXC_PARSE_TYPE_MISMATCH_S
+      else "model=" ++ resStr (evalUn op a)
+    | _, _, _ => "bad-op"
   | ["op", name, v1, v2] =>
     match binOpOfName name, parseVal v1, parseVal v2 with
     | some op, some a, some b =>
